@@ -2,6 +2,7 @@ import IceTie.MuxUdp
 import IceProofs.UdpMuxSim
 import IceProofs.UniMuxSim
 import IceProofs.UniMuxConc
+import IceProofs.UdpMuxViewModel
 /-!
 # C12 — UDP mux delivers each datagram to the right agent and to no other
 
@@ -232,6 +233,97 @@ example : 0 < (after [.getConn uA false, .writeTo 0 x4, .removeByUfrag uA]).ncon
 example : endpoint x4 = endpoint x4mapped := by decide
 example : endpoint { ip := { is4 := false, hi := 18338657682652659712, lo := 1, zone := [101, 48] }, port := 1 }
     ≠ endpoint { ip := { is4 := false, hi := 18338657682652659712, lo := 1, zone := [101, 49] }, port := 1 } := by decide
+
+/-! ## The output line: what the driver prints is what the driver's monitor reads
+
+`IceSpec/C12View.lean` holds THE printer (`printWire`; `printOut i g = printWire ∘ toWire i g` for a typed output
+of mux `i` under session-wide handle id `g`) and THE parser (`parseWire`) of the `udpmux` output line; the driver
+uses no other string function on outputs.  `Wire` is what a line says: `wrote` and `done` are both `ok`, a
+connection is named with its socket index, a handle by its session-wide id; `ofWire` / `decode` give back the typed
+output, given the operation and the monitor's handle counter. -/
+
+open IceSpec.C12View IceProofs.UdpMuxView
+
+/-- **the line is read back.**  Every line `printWire` can print — every `Wire` value whose datagram source (the
+only free text on a line) is printable: a 4-byte address without `hi` and zone, a zone of character codes other
+than `,` and space that is not the text `-` — is read back by `parseWire` as the same value. -/
+theorem C12_view_roundtrip (x : Wire) (h : x.wf = true) : parseWire (printWire x) = some x :=
+  parseWire_printWire x h
+
+example : (Wire.pkt 7 x4mapped).wf = true := by decide
+example : (Wire.conn 3 1 0).wf = true ∧ (Wire.closeIn false (some (2, 5))).wf = true := by decide
+/-- the hypothesis is needed: a zone with a space does not survive the line -/
+example : (Wire.pkt 7 { x4mapped with ip := { x4mapped.ip with zone := [101, 32] } }).wf = false := by decide
+
+/-- The `closein` line (`ok w|q` + the line of the datagram's output) is a `Wire` line as well, for both outputs
+an inbound datagram has in the model. -/
+theorem C12_view_roundtrip_closein (ops : List Op) (src : Addr) (k : Kind) (pid i : Nat) (w : Bool) :
+    ∃ x, closeInWire w i (step (after ops) (.inbound src k pid)).2 = some x
+      ∧ parseWire (printCloseIn w i (step (after ops) (.inbound src k pid)).2) = some x := by
+  have h := (C12_dispatch ops src k pid).1
+  cases he : expected (hist ops) src k with
+  | none =>
+    rw [he] at h
+    refine ⟨.closeIn w none, by rw [h]; rfl, ?_⟩
+    rw [printCloseIn_eq w i _ (.closeIn w none) (by rw [h]; rfl)]
+    exact parseWire_printWire _ rfl
+  | some c =>
+    rw [he] at h
+    refine ⟨.closeIn w (some (i, c)), by rw [h]; rfl, ?_⟩
+    rw [printCloseIn_eq w i _ (.closeIn w (some (i, c))) (by rw [h]; rfl)]
+    exact parseWire_printWire _ rfl
+
+example : printCloseIn true 2 (step (after [.getConn uA false]) (.inbound x4 (.stunUser userA) 1)).2 = "ok w m2c0" := by
+  decide
+
+/-- Every address the driver reads from a (space-free) input token is printable: the hypothesis `opWf` of the two
+theorems below holds for every operation the driver can be given. -/
+theorem C12_view_inputs_printable (tok : String) (a : Addr) (h : parseAddr tok = some a) (hs : ' ' ∉ tok.toList) :
+    wfAddr a = true :=
+  wfAddr_parseAddr tok a h hs
+
+example : parseAddr "6,0,281470850105345,e,5000" = some x4mapped := by
+  rw [show "6,0,281470850105345,e,5000" = showAddr x4mapped by decide]
+  exact parseAddr_showAddr _ (by decide)
+
+/-- **every output of the model is read back — and decodes to itself.**  For every operation sequence with
+printable datagram sources, every output of the model, printed by the driver's printer for any socket index and
+handle id, is read back by the driver's parser as its `Wire` form, and `decode` (parser, then `ofWire` with the
+operation and the monitor's handle counter) gives the typed output itself. -/
+theorem C12_view_roundtrip_model (ops : List Op) (op : Op) (hops : ∀ x ∈ ops, opWf x = true) (i g : Nat) :
+    parseWire (printOut i g (step (after ops) op).2) = some (toWire i g (step (after ops) op).2)
+    ∧ decode op (hist ops).nh (printOut i g (step (after ops) op).2) = some (step (after ops) op).2 := by
+  have hi := C12_invariant ops
+  have hs := C12_refines_history ops
+  have hq : QInv (hist ops) := qinv_run ops init SState.init qinv_init hops
+  exact ⟨parseWire_printOut i g _ (wfOut_step _ _ hi hs hq op), decode_step _ _ hi hs hq op i g⟩
+
+example : opWf (.inbound x4mapped (.stunUser userA) 7) = true := by decide
+example : printOut 0 1 (step (after [.getConn uA false, .inbound x4mapped (.stunUser userA) 7]) (.read 0)).2
+    = "p7 6,0,281470850105345,e,5000" := by decide
+
+/-- **the model passes the monitor on lines.**  Every run of the model (printable datagram sources), printed line
+by line with the driver's printer (any socket index / handle id per line) and read back with the driver's parser,
+is accepted by the spec monitor of C12. -/
+theorem C12_model_passes_string_monitor (ig : Op × Out → Nat × Nat) (ops : List Op)
+    (hops : ∀ x ∈ ops, opWf x = true) : lineMonitor (printTrace ig (trace ops)) = none := by
+  unfold lineMonitor
+  rw [show trace ops = (run init ops).2 from rfl,
+    lineVerdicts_run ig ops init SState.init inv_init sim_init qinv_init hops]
+  exact C12_model_passes_monitor ops
+
+/-- the line monitor rejects: a datagram for ufrag `a` answered with the line of another connection, and a
+line that is no output line -/
+example : lineMonitor [(.getConn uA false, printOut 0 0 (.conn 0 0)), (.getConn uB false, printOut 0 1 (.conn 1 1)),
+    (.inbound x4 (.stunUser userA) 1, printOut 0 0 (.delivered 1))] ≠ none := by
+  have h1 := parseWire_printOut 0 0 (.conn 0 0) rfl
+  have h2 := parseWire_printOut 0 1 (.conn 1 1) rfl
+  have h3 := parseWire_printOut 0 0 (.delivered 1) rfl
+  simp only [lineMonitor, lineVerdicts, decode, h1, h2, h3, Option.bind_some, ofWire, toWire, okOf]
+  decide
+example : lineMonitor [(.getConn uA false, "h m0c0 x y")] = some "dispatch: unparsable output line" := by decide
+example : lineMonitor (printTrace (fun _ => (0, 0)) (trace [.getConn uA false, .inbound x4 (.stunUser userA) 1, .read 0]))
+    = none := C12_model_passes_string_monitor _ _ (by decide)
 
 /-! # The universal mux (`UniversalUDPMuxDefault`, udp_mux_universal.go)
 
